@@ -242,6 +242,41 @@ theorem tbloom_expired_is_empty (t : Bits.TState) (h : t.view = none) (idxs : Li
   | nil => exact absurd rfl hne
   | cons i rest => simp [allSet, getBits, get_zero]
 
+/-- **A lookup leaves the filter intact** — whatever state the store is in: after a call of the
+decorated predicate the filter's key logically holds exactly what it held before (same array, same
+deadline; at most a run-out entry has been purged) and no time has passed.  (Lookups are the only
+thing the facade's controls — `invalidate_further`, `disabling`, transactions — may wrap without
+becoming a different step; that the real lookup under such a control is this step is what the
+correspondence checks.) -/
+theorem lookup_leaves_filter_intact (t : Bits.TState) (idxs : List Nat) :
+    (fstep t (.query idxs)).view = t.view ∧ (fstep t (.query idxs)).now = t.now := by
+  simp only [fstep, Bits.tstep]
+  exact ⟨tget_view t, tget_now t⟩
+
+/-- … hence lookups — of any elements, added or not, before or after the add, in any number —
+never make an added element disappear: this is `tbloom_no_false_negative` with `post` made of
+queries only, where the aliveness premise is automatic. -/
+theorem lookups_never_lose_an_element (t : Bits.TState) (idxs : List Nat) (qs : List (List Nat)) :
+    tallSet (frun (fstep t (.add idxs true)) (qs.map FOp.query)) idxs = true := by
+  apply tbloom_no_false_negative
+  have hlive : ∀ (qs : List (List Nat)) (s : Bits.TState), s.view.isSome = true →
+      aliveThrough s (qs.map FOp.query) = true := by
+    intro qs
+    induction qs with
+    | nil => intro s _; rfl
+    | cons q rest ih =>
+      intro s hs
+      have hv := (lookup_leaves_filter_intact s q).1
+      simp only [List.map_cons, aliveThrough, Bool.and_eq_true]
+      exact ⟨by rw [hv]; exact hs, ih _ (by rw [hv]; exact hs)⟩
+  apply hlive
+  have e : fstep t (.add idxs true) = (Bits.tstep 1 t (.incrBits idxs 1)).1 := by simp [fstep]
+  rw [e, view_incrBits]; rfl
+
+/-- when the backend gives no answer (`get_bits` disabled, backend unavailable) the decorated
+predicate answers what the wrapped function answers — never the filter's `False` — and asks it. -/
+theorem lookup_without_backend_answer (underlying : Bool) : queryOff underlying = (underlying, true) := rfl
+
 /-- `dual_bloom` (its documentation allows false negatives — for elements it never managed to
 record): **an element recorded in the true filter is never answered `False` by the filters** —
 once all its true-filter bits are set (the call that found both filters undecided, got a truthy
@@ -314,5 +349,9 @@ example :
 example : allSet (dualCall ⟨0, 0⟩ [1, 4] [2] false true).1.t [1, 4] = true
     ∧ (dualCall (dualRun false (dualCall ⟨0, 0⟩ [1, 4] [2] false true).1 [([3], [2], false)]) [1, 4] [5] false true).2 = (true, false)
     ∧ (dualCall (dualRun false (dualCall ⟨0, 0⟩ [1, 4] [2] false true).1 [([3], [2], false)]) [1, 4] [2] false true).2 = (true, true) := by decide
+
+-- lookups before and after an add (also of the added element's "twin" indexes) leave the filter as it is
+example : (frun (fstep ⟨9, some ⟨0b1111, some 8⟩⟩ (.query [1, 2])) [.add [2, 6] true, .query [3], .query [2, 6]]).view
+    = some ⟨0b1000100, none⟩ := by decide
 
 end CashewsVerif.Props.C18
